@@ -13,18 +13,25 @@ use memchr::memmem;
 /// that using it allocates nothing.
 static mut ALLOC_FORBIDDEN: bool = true;
 
+/// A tiny bump arena used only while allocation is allowed (no libc model,
+/// no loops); memory handed out here is never freed (harnesses `forget` the
+/// owned values they build).
+static mut ARENA: crate::place::Buf<96> = crate::place::Buf([0; 96]);
+static mut ARENA_USED: usize = 0;
+
 pub unsafe fn trap_alloc(layout: std::alloc::Layout) -> *mut u8 {
     if ALLOC_FORBIDDEN {
         panic!("heap allocation reached");
     }
-    std::alloc::GlobalAlloc::alloc(&std::alloc::System, layout)
+    let a = layout.align();
+    let start = (ARENA_USED + a - 1) & !(a - 1);
+    assert!(start + layout.size() <= 96, "harness arena exhausted");
+    ARENA_USED = start + layout.size();
+    core::ptr::addr_of_mut!(ARENA.0).cast::<u8>().add(start)
 }
 
-pub unsafe fn trap_realloc(p: *mut u8, layout: std::alloc::Layout, n: usize) -> *mut u8 {
-    if ALLOC_FORBIDDEN {
-        panic!("heap allocation reached");
-    }
-    std::alloc::GlobalAlloc::realloc(&std::alloc::System, p, layout, n)
+pub unsafe fn trap_realloc(_p: *mut u8, _layout: std::alloc::Layout, _n: usize) -> *mut u8 {
+    panic!("heap allocation reached");
 }
 
 pub fn allow_alloc<T>(f: impl FnOnce() -> T) -> T {
@@ -42,7 +49,8 @@ pub fn allow_alloc<T>(f: impl FnOnce() -> T) -> T {
 pub fn all_memmem<const NLEN: usize, const HCAP: usize>(mode: u8, part: u8) {
     force(mode);
     let nb: [u8; NLEN] = kani::any();
-    let n = &nb[..];
+    let nz1 = [0u8; 1];
+    let n = crate::substr::nz(&nb, &nz1);
     let (hb, hlen) = sym_hay::<HCAP>(0, HCAP);
     let h = &hb.0[..hlen];
     // construction from a borrowed needle, one-shot searches
